@@ -30,7 +30,7 @@ COMPONENTS = {"real": ["ECAgent.Core.Environment add_agent / remove_agent / get_
                        "SpaceWorld / DiscreteWorld / GridWorld / LineWorld add_agent / remove_agent",
                        "SystemManager component pools (observed)"],
               "stub": ["agents and component classes are harness-defined"]}
-PROBES = ["agent_class_slotted_or_with_own_attributes", "overlapping_or_unfinished_iterations", "dup_same_object", "dup_other_object", "unknown_remove", "unknown_strict_lookup", "oob_x_lo", "oob_x_hi",
+PROBES = ["same_id_resident_in_two_environments_of_one_model", "second_environment_of_the_model_populated", "agent_class_slotted_or_with_own_attributes", "overlapping_or_unfinished_iterations", "dup_same_object", "dup_other_object", "unknown_remove", "unknown_strict_lookup", "oob_x_lo", "oob_x_hi",
           "oob_y_lo", "oob_y_hi", "oob_z_lo", "oob_z_hi", "oob_far", "reject_on_empty_environment", "remove_from_middle",
           "readd_after_remove", "plain_env", "spatial_env", "model_lifecycle_op", "caller_scrambles_listing", "oob_fractional_in_grid", "environment_without_model",
           "agent_is_an_environment", "nested_population_changed_while_resident", "ops_from_inside_a_timestep", "deprecated_camelcase_spelling", "agent_constructed_for_another_model",
@@ -133,6 +133,11 @@ def generate(rng, tier):
         for p_ in pool:
             if rng.random() < 0.5:
                 p_["cls"] = rng.choice(["slotted", "ownattrs"])
+    if not orphan and rng.random() < 0.12:
+        # a second environment bound to the same model holds agents of its own - other objects that happen to carry the ids
+        # (and component classes) of agents over here; ids are unique per environment, listings are per model
+        for _ in range(rng.randint(2, 8)):
+            ops.insert(rng.randint(0, len(ops)), {"op": rng.choice(["side_add", "side_add", "side_remove"]), "k": rng.randrange(len(pool))})
     return {"world": world, "pool": pool, "ops": ops, "walks": rng.random() < 0.3}
 
 
@@ -205,6 +210,7 @@ def execute(sc, ctx):
                 "nested": [(id(a), [x.id for x in a.agents.values()]) for a in objs if isinstance(a, Environment)],
                 "pools": pools()}
 
+    side = {}          # a second environment bound to the same model, with residents of its own (filled by side_add)
     held = []          # an iteration of the environment begun earlier and never finished (the caller broke out of a loop)
 
     def check_agreement(where):
@@ -247,8 +253,18 @@ def execute(sc, ctx):
             for t, c in a.components.items():
                 if t is not PositionComponent:
                     exp_pools.setdefault(t.__name__, []).append(id(c))
-        ctx.check(pools() == sorted(exp_pools.items()), "component-listings",
-                  lambda: f"{where}: listings {pools()} expected {sorted(exp_pools.items())}")
+        if side:
+            # (with a second environment the order inside a listing is the order of joining across both: compared as sets here)
+            for a in side["res"].values():
+                for t, c in a.components.items():
+                    exp_pools.setdefault(t.__name__, []).append(id(c))
+            ctx.check(sorted((n_, sorted(l_)) for n_, l_ in pools()) == sorted((n_, sorted(l_)) for n_, l_ in exp_pools.items()),
+                      "component-listings", lambda: f"{where}: listings {pools()} expected (as sets) {sorted(exp_pools.items())}")
+            ctx.check([x.id for x in side["env"]] == [x.id for x in side["res"].values()], "iteration",
+                      lambda: f"{where}: the second environment iterates {[x.id for x in side['env']]}")
+        else:
+            ctx.check(pools() == sorted(exp_pools.items()), "component-listings",
+                      lambda: f"{where}: listings {pools()} expected {sorted(exp_pools.items())}")
         for a in objs:
             if spatial and (a.id not in residents or objs[residents[a.id]] is not a):
                 ctx.check(PositionComponent not in a, "stray-position", f"{where}: non-resident {a.id} carries a position")
@@ -274,6 +290,25 @@ def execute(sc, ctx):
             continue
         if kind == "lifecycle" and ctx.in_step and op.get("what") == "step":
             continue          # stepping the model from inside its own timestep is re-entrant stepping: outside the statements
+        if kind in ("side_add", "side_remove"):
+            k = op["k"] % len(pool)
+            if sc["world"].get("orphan") or isinstance(objs[k], Environment):
+                continue
+            if not side:
+                side["env"] = Environment(m, id="side-environment")
+                side["res"] = {}
+            if kind == "side_add" and k not in side["res"] and all(t_.id != objs[k].id for t_ in side["res"].values()):
+                twin = Agent(objs[k].id, m)
+                for c in pool[k]["comps"]:
+                    twin.add_component(KT[c % 3](twin, m))
+                ctx.expect_ok("side-add", side["env"].add_agent, twin)
+                side["res"][k] = twin
+                ctx.probe("same_id_resident_in_two_environments_of_one_model" if objs[k].id in residents else "second_environment_of_the_model_populated")
+            elif kind == "side_remove" and k in side["res"]:
+                ctx.expect_ok("side-remove", side["env"].remove_agent, side["res"].pop(k).id)
+            ctx.event(kind, k)
+            check_agreement(kind)
+            continue
         if kind == "add":
             k = op["k"] % len(pool)
             a = objs[k]
@@ -394,8 +429,8 @@ def execute(sc, ctx):
         elif kind == "branch":
             if ctx.in_step or env.model is None:
                 continue
-            blob = (m, env, objs, other_model)
-            m, env, objs, other_model = pickle.loads(pickle.dumps(blob)) if op.get("how") == "pickle" else copy.deepcopy(blob)
+            blob = (m, env, objs, other_model, side)
+            m, env, objs, other_model, side = pickle.loads(pickle.dumps(blob)) if op.get("how") == "pickle" else copy.deepcopy(blob)
             ctx.fault("restart.continue_on_copy")
             ctx.probe("history_continued_on_a_copy")
         elif kind == "observe":
